@@ -1160,10 +1160,17 @@ fn cmd_matehunt() {
                 for seq in seqs.split(';').enumerate().filter(|(i, _)| interesting || *i == 0 || *i == 2).map(|(_, x)| x) {
                     TRANSPOSITION_TABLE.write().unwrap().clear();
                     for (k, d) in seq.split(',').enumerate() {
-                        let depth: u8 = d.trim().trim_start_matches('d').parse().unwrap_or(3);
-                        let mut search = Search::new(&b, None);
+                        // "d<N>" or "d<N>n<budget>": a search cut by a node budget only PREPARES the cache (an earlier, interrupted
+                        // search of the same position); its own answer is judged for lying mate scores only
+                        let d = d.trim().trim_start_matches('d');
+                        let (dtxt, ntxt) = d.split_once('n').map_or((d, None), |(a, b)| (a, Some(b)));
+                        let budget: Option<u64> = ntxt.and_then(|x| x.parse().ok());
+                        let depth: u8 = if budget.is_some() { 0 } else { dtxt.parse().unwrap_or(3) };
+                        let sdepth: u8 = dtxt.parse().unwrap_or(3);
+                        let limits = budget.map(|n| crate::search::limits::SearchLimits::new().nodes(Some(n)));
+                        let mut search = Search::new(&b, limits);
                         *crate::search::verif::TRACE.lock().unwrap() = None;
-                        search.search(&SimpleEvaluator, Some(depth));
+                        search.search(&SimpleEvaluator, Some(sdepth));
                         let (bm, bs, _, _) = search.verif_result();
                         let Some(c) = bm else { continue };
                         let mut clause = 0;
